@@ -5,6 +5,7 @@ import (
 	"encoding/json"
 	"fmt"
 	"math/big"
+	"os"
 	"strings"
 	"time"
 
@@ -241,6 +242,9 @@ func work(ctx *runner.Ctx) {
 	for si := 0; si < nsess; si++ {
 		if quick && sessions[si].thorough {
 			continue
+		}
+		if only := os.Getenv("VERIF_C16_ONLY"); only != "" && !strings.HasPrefix(sessions[si].name, only) {
+			continue // development aid: one session's cases only (the evidence then says so through its case count)
 		}
 		r := runSession(si, sess.Opts{Seed: 7, Record: true})
 		if r.Outcome != "ok" || r.GErr != nil || r.EErr != nil {
